@@ -29,7 +29,12 @@ RULE = ("a case = N tensors of one class (routine family x spectrum kind x orien
         "log-uniform scale (1e-20..1e20 where the function's domain allows): spectra {distinct, relative gap 10^-k for k=0..16, "
         "exactly repeated pair, triple, near-triple, rank 2/1/0, mixed signs, negative, traceless}; orientations {identity, "
         "axis permutation, in-plane block, Haar}; Haar tensors are relabelled so that each pivot row 0/1/2 is selected; JVP "
-        "directions = the 6 symmetric unit perturbations + random symmetric + random non-symmetric.  Non-trivial = the case "
+        "directions = the 6 symmetric unit perturbations + random symmetric + random non-symmetric.  Exact-degeneracy classes "
+        "(spec exact:*, dyadic entries x power-of-two scales, exact axis relabellings, every family and both modes): middle "
+        "eigenvalue exactly the mean of the others (det of the deviator = 0: diagonal, traceless in-plane block, in-plane block with "
+        "out-of-plane mean, Haar-rotated), pure shear and a I + shear (zero deviatoric diagonal), hollow, equal-diagonal block, "
+        "circulant and axis-exchange-symmetric tensors (exact ties of the pivot row norms), exactly traceless, one/two/three zero "
+        "off-diagonals, isotropic; a Fraction/float census of the surfaces hit is in coverage.observed (surface:*, exact_rational:*).  Non-trivial = the case "
         "contains a tensor that is not a multiple of the identity; distinct = canonical hash of the case parameters.")
 ASSUMPTIONS = [
     "numpy.linalg.eigh/eigvalsh (LAPACK), fractions.Fraction and scipy.linalg.sqrtm/logm/expm are correct reference models",
@@ -43,6 +48,10 @@ ASSUMPTIONS = [
     "value of the intermediate), the clause is in the D8 class if any of them is",
     "inv: rounding bound of the adjugate/determinant formula 64 eps s1^2/(s2 s3) (not eps cond); log(exp A) = A only judged "
     "while cond(exp A) <= 1e6; exp arguments |lambda| <= 15; JVP tensors: condition <= 10, scales 1e-8..1e8 (exp: <= 2)",
+    "D23 is classified by a cheap structural class (equal diagonal, one or two non-zero off-diagonals) or, for failing elements "
+    "only, by an independent longdouble replica of the deflation step (Wilkinson variable b = 0 to 64 eps with a non-small "
+    "off-diagonal, any admissible root/pivot choice) or by a single-call probe of the library (two exactly equal eigenvalues at "
+    "the mean of two separated reference eigenvalues); D24 / D8b by exact structural predicates on the scaled deviator",
     "D22 classifier trusts scipy.linalg.sqrtm for the 2^k-th root and numpy leggauss(5) as the reference model of the defect",
 ]
 MAX_VACUOUS_FRACTION = 0.2
@@ -242,7 +251,43 @@ def merge_known(*ks):
     return out
 
 
-def judge(res, clause, err, allowed, known=None, key=None, detail=None, tag=None):
+_CTX = {"probe": None}
+
+
+def set_probe(*arrays):
+    """Tensors handed to the eigen-routine by the clauses that follow (default for judge's D23 probe)."""
+    _CTX["probe"] = list(arrays)
+
+
+def d23_signature(T):
+    """Honest-failure signature of the open finding D23 on ONE tensor, read from the library itself with a deterministic
+    probe (one single compiled call of eigen_sym33_unit, whatever the mode of the clause): the Wilkinson step hit b == 0
+    exactly and multiplied the square root by sign(0) = 0, i.e. two returned eigenvalues are EXACTLY equal and sit at the
+    mean of two well separated reference eigenvalues, while the third one is right."""
+    import jax.numpy as np
+    T = onp.asarray(T, dtype=float)
+    if not onp.all(onp.isfinite(T)):
+        return False
+    lam = onp.asarray(_jitted("eig", "single", 1, 0)(np.asarray(T))[0])
+    if not onp.all(onp.isfinite(lam)):
+        return False
+    w = onp.linalg.eigvalsh(0.5 * (T + T.T))
+    nrm = max(abs(w[0]), abs(w[2]))
+    if not nrm > 0:
+        return False
+    for i, j, k in ((0, 1, 2), (1, 2, 0), (0, 2, 1)):           # (i, j) the collapsed pair of the reference, k the untouched one
+        if w[j] - w[i] <= 1e-6 * nrm:
+            continue
+        mid = 0.5 * (w[i] + w[j])
+        near = onp.abs(lam - mid) <= 1e-12 * nrm
+        if near.sum() >= 2:
+            vals = lam[near]
+            if onp.any(vals[1:] == vals[:-1]) and onp.abs(lam - w[k]).min() <= 1e-12 * nrm:
+                return True
+    return False
+
+
+def judge(res, clause, err, allowed, known=None, key=None, detail=None, tag=None, probe=None):
     """err/allowed arrays over the batch.  Elements in a known-finding input class are reported separately
     (their closest call goes to '<clause>[known class]') and, when they fail, carry the mechanism key."""
     err = onp.asarray(err, dtype=float)
@@ -260,16 +305,35 @@ def judge(res, clause, err, allowed, known=None, key=None, detail=None, tag=None
     ratio = onp.where(onp.isnan(ratio), onp.inf, ratio)
     res.checks += N
     res.count("n:" + clause, N)
+    if known.any():
+        res.count("known_class_total:" + clause, int(known.sum()))
+        res.count("known_class_bad:" + clause, int((known & (ratio > 1)).sum()))
+    bad = onp.where(ratio > 1)[0]
+    # failing elements outside the cheap structural classes: D23 input class by the independent replica of the deflation step
+    # (Wilkinson variable b vanishes to rounding) or by the signature read from the library with a single-call probe
+    probe = _CTX["probe"] if probe is None else probe
+    if probe and len(bad):
+        if keys is None:
+            keys = [key if k else None for k in known]
+        known = known.copy()
+        nprobed = 0
+        for i in bad:
+            if known[i] or nprobed >= 64:
+                continue
+            nprobed += 1
+            from vlib.oracles.c12_ref import wilkinson_b_vanishes
+            if any(len(P) > i and (wilkinson_b_vanishes(P[i]) or d23_signature(P[i])) for P in probe):
+                known[i] = True
+                keys[i] = KEY_D23
+                res.count("known_class_total:" + clause)
+                res.count("known_class_bad:" + clause)
+                res.count("d23.identified_by_probe")
+    # unexplained first, so that the 20-entry cap of Res can never hide one behind known findings
     must = ~known
     if must.any():
         w = float(ratio[must].max())
         if w > res.ratios.get(clause, -1.0):
             res.ratios[clause] = w
-    if known.any():
-        res.count("known_class_total:" + clause, int(known.sum()))
-        res.count("known_class_bad:" + clause, int((known & (ratio > 1)).sum()))
-    bad = onp.where(ratio > 1)[0]
-    # unexplained first, so that the 20-entry cap of Res can never hide one behind known findings
     order = [i for i in bad if not known[i]] + [i for i in bad if known[i]]
     for i in order[:6]:
         d = {"index": int(i), "observed": float(err[i]) if onp.isfinite(err[i]) else str(err[i]), "allowed": float(allowed[i])}
@@ -332,6 +396,7 @@ def run_eig(case, res):
     N, mode = case["N"], case["mode"]
     A, lams, scales = G.make_batch(rng, N, case["spec"], case["orient"], "sym", pivot="cycle")
     cl = _classes(A, mode)
+    set_probe(A)
     _count_common(res, case, A, scales, cl)
     piv = R.pivot_index(A)
     for p in (0, 1, 2):
@@ -381,6 +446,7 @@ def run_fun_pd(case, res):
     N, mode, B = case["N"], case["mode"], case["B"]
     A, lams, scales = G.make_batch(rng, N, case["spec"], case["orient"], "pd")
     cl = _classes(A, mode)
+    set_probe(A)
     _count_common(res, case, A, scales, cl)
     sc = cl["nrm"]
     cond = cl["lam"][:, 2] / cl["lam"][:, 0]
@@ -402,7 +468,7 @@ def run_fun_pd(case, res):
         judge(res, "log.vs_reference", R.maxabs(L - Lref), TOL_FUN * cond * lscale, d8, None, det)
         Lc = _classes(Lref, mode)          # class of the intermediate, from the reference value (the library's may be NaN)
         (EL,) = evaluate("exp", mode, B, (L,))
-        judge(res, "exp_of_log_is_identity", R.maxabs(EL - A), TOL_FUN * sc * lscale + tiny, merge_known(d8, Lc["known"]), None, det)
+        judge(res, "exp_of_log_is_identity", R.maxabs(EL - A), TOL_FUN * sc * lscale + tiny, merge_known(d8, Lc["known"]), None, det, probe=[A, L])
         (LS,) = evaluate("logsqrt", mode, B, (A,))
         judge(res, "log_sqrt_is_half_log", R.maxabs(LS - 0.5 * Lref), TOL_FUN * cond * lscale, d8, None, det)
         # pow: A^(1/2)^2 = A, A^m A^-m = I, A^2 = A A, A^1 = A, A^m vs reference
@@ -426,11 +492,11 @@ def run_fun_pd(case, res):
         k2 = merge_known(d8, c2["known"])
         res.count("fun.equivariance.tensors", N)
         (S2,) = evaluate("sqrt", mode, B, (A2,))
-        judge(res, "sqrt.equivariant", R.maxabs(S2 - _conj(Q, S)), TOL_FUN * onp.sqrt(sc) * onp.sqrt(cond) + tiny, k2, None, det)
+        judge(res, "sqrt.equivariant", R.maxabs(S2 - _conj(Q, S)), TOL_FUN * onp.sqrt(sc) * onp.sqrt(cond) + tiny, k2, None, det, probe=[A, A2])
         (L2,) = evaluate("log", mode, B, (A2,))
-        judge(res, "log.equivariant", R.maxabs(L2 - _conj(Q, L)), TOL_FUN * cond * lscale, k2, None, det)
+        judge(res, "log.equivariant", R.maxabs(L2 - _conj(Q, L)), TOL_FUN * cond * lscale, k2, None, det, probe=[A, A2])
         (Pm2,) = evaluate("pow", mode, B, (A2,), (m,))
-        judge(res, "pow.equivariant", R.maxabs(Pm2 - _conj(Q, Pm)), TOL_FUN * R.maxabs(Pref) * cond + tiny, k2, None, det, tag={"m": m})
+        judge(res, "pow.equivariant", R.maxabs(Pm2 - _conj(Q, Pm)), TOL_FUN * R.maxabs(Pref) * cond + tiny, k2, None, det, tag={"m": m}, probe=[A, A2])
 
 
 def run_fun_psd(case, res):
@@ -441,6 +507,7 @@ def run_fun_psd(case, res):
     N, mode, B = case["N"], case["mode"], case["B"]
     A, lams, scales = G.make_batch(rng, N, case["spec"], case["orient"], "psd")
     cl = _classes(A, mode)
+    set_probe(A)
     _count_common(res, case, A, scales, cl)
     res.nontrivial = case["spec"] != "rank0"
     sc = cl["nrm"]
@@ -475,6 +542,7 @@ def run_fun_exp(case, res):
     N, mode, B = case["N"], case["mode"], case["B"]
     A, lams, scales = G.make_batch(rng, N, case["spec"], case["orient"], "sym", scale_exp=(-6.0, 0.7))
     cl = _classes(A, mode)
+    set_probe(A)
     _count_common(res, case, A, scales, cl)
     d8 = cl["known"]
     det = _mat_detail(A, {"relgap": cl["relgap"]})
@@ -496,13 +564,13 @@ def run_fun_exp(case, res):
         if okc.any():
             (LX,) = evaluate("log", mode, B, (X[okc],))
             judge(res, "log_of_exp_is_identity", R.maxabs(LX - R.sym(A[okc])), (TOL_FUN * condX * amp)[okc], merge_known(d8, Xc["known"])[okc], None,
-                  _mat_detail(A[okc], {"relgap": cl["relgap"][okc]}))
+                  _mat_detail(A[okc], {"relgap": cl["relgap"][okc]}), probe=[A[okc], X[okc]])
         Q = _rot_batch(rng, N)
         A2 = R.sym(_conj(Q, A))
         c2 = _classes(A2, mode)
         (X2,) = evaluate("exp", mode, B, (A2,))
         res.count("fun.equivariance.tensors", N)
-        judge(res, "exp.equivariant", R.maxabs(X2 - _conj(Q, X)), TOL_FUN * xs * amp, merge_known(d8, c2["known"]), None, det)
+        judge(res, "exp.equivariant", R.maxabs(X2 - _conj(Q, X)), TOL_FUN * xs * amp, merge_known(d8, c2["known"]), None, det, probe=[A, A2])
 
 
 def run_jvp(case, res):
@@ -558,7 +626,7 @@ def run_jvp(case, res):
             else:
                 known = d8[sel]
             judge(res, "jvp.%s" % fname, err[sel], TOL_JVP * ls[sel] * onp.maximum(1.0, onp.sqrt(cond[sel])) + onp.finfo(float).tiny,
-                  known, key, det, tag={"m": m})
+                  known, key, det, tag={"m": m}, probe=[A[sel]])
 
 
 def run_helpers(case, res):
@@ -609,6 +677,7 @@ def run_helpers(case, res):
         P[i] = Rm @ (0.5 * (Um + Um.T))
     C = onp.einsum("nji,njk->nik", P, P)
     cC = _classes(C, mode)
+    set_probe(C)
     condF = onp.linalg.cond(P)
     Rr, Uu = evaluate("polar", mode, B, (P,))
     res.count("polar.checked", N)
@@ -662,7 +731,7 @@ def _pow_jvp_exactly_repeated(case, res, rng):
     res.count("jvp.pow.known_class_D21", int(d21.sum()))
     res.count("jvp.at_exactly_repeated", N)
     judge(res, "jvp.pow", R.maxabs(T - Lref), TOL_JVP * R.maxabs(Lref) + onp.finfo(float).tiny,
-          onp.array([KEY_D21 if x else None for x in d21], dtype=object), None, _mat_detail(A, {"E": E}), tag={"m": m, "block": "exactly_repeated"})
+          onp.array([KEY_D21 if x else None for x in d21], dtype=object), None, _mat_detail(A, {"E": E}), tag={"m": m, "block": "exactly_repeated"}, probe=[A])
     (T2,) = evaluate("jvp_pow_static", mode, B, (A, E))
     with onp.errstate(all="ignore"):
         Lref2 = R.frechet_ref(A, E, "pow", 1.7)
@@ -670,7 +739,7 @@ def _pow_jvp_exactly_repeated(case, res, rng):
     res.count("jvp.pow.known_class_D21", int(d21.sum()))
     judge(res, "jvp.pow", R.maxabs(T2 - Lref2), TOL_JVP * R.maxabs(Lref2) + onp.finfo(float).tiny,
           onp.array([KEY_D21 if x else None for x in d21], dtype=object), None, _mat_detail(A, {"E": E}),
-          tag={"m": 1.7, "block": "exactly_repeated, static exponent"})
+          tag={"m": 1.7, "block": "exactly_repeated, static exponent"}, probe=[A])
 
 
 def run_dense(case, res):
@@ -791,6 +860,7 @@ def run_dense(case, res):
 def run_case(case):
     res = Res(case)
     fam = case["family"]
+    _CTX["probe"] = None
     {"eig": run_eig, "fun_pd": run_fun_pd, "fun_psd": run_fun_psd, "fun_exp": run_fun_exp, "jvp": run_jvp,
      "helpers": run_helpers, "dense": run_dense}[fam](case, res)
     return res
